@@ -18,6 +18,7 @@
 import Kvass.Model.Loop
 import Kvass.Spec.Loop
 import Kvass.Proofs.CoordQuiet
+import Kvass.Proofs.CoordNeed
 
 namespace Kvass.Props.C03
 open Kvass Kvass.Coord Kvass.Spec
@@ -79,41 +80,131 @@ theorem quiet_post_empty (reported : AL St) (b : List (Hash × TState × Int))
     own "not zero" test) makes `tryScaleUp` ask for at least one shard more than there are -/
 theorem tryScaleUp_exceeds (o : Opt) (ss : List SI) (sp : Space) (hall : nChangeable ss = ss.length)
     (hp : 0 ≤ sp.proc) (hh : 0 ≤ sp.head) (hmp : 0 < o.maxProc) (hmh : 0 ≤ o.maxHead) :
-    (ss.length : Int) + 1 ≤ tryScaleUp o ss sp := by
-  unfold tryScaleUp
-  simp only [Sites.upBase_eq, Sites.upSum_eq, hall]
-  have h1 : 1 ≤ Gen.upProc o sp := by
-    rw [Sites.upProc_eq]
-    have := Int.tdiv_nonneg hp (Int.le_of_lt hmp)
-    omega
-  have h2 : 1 ≤ Gen.upHead o sp := by
-    rw [Sites.upHead_eq]
-    have := Int.tdiv_nonneg hh hmh
-    omega
-  have h3 : 1 ≤ (if Gen.upUseHead o sp (Gen.upProc o sp) = true then Gen.upHead o sp else Gen.upProc o sp) := by
-    split <;> assumption
-  generalize (if Gen.upUseHead o sp (Gen.upProc o sp) = true then Gen.upHead o sp else Gen.upProc o sp) = up at h3
-  split
-  · rename_i hf
-    rw [Sites.upFloor_iff] at hf
-    omega
-  · omega
+    (ss.length : Int) + 1 ≤ tryScaleUp o ss sp := Coord.tryScaleUp_exceeds o ss sp hall hp hh hmp hmh
 
 /-- the final clamp keeps such a request above the current count as long as more shards are allowed -/
-theorem clamp_exceeds (o : Opt) (k n : Int) (hk : n + 1 ≤ k) (hmax : n < o.maxShard) : n < clamp o k := by
-  unfold clamp
-  simp only
-  split
-  · rename_i h1
-    split
-    · rename_i h2
-      rw [Sites.clampMin_iff] at h2; rw [Sites.clampMinTo_eq]
-      rw [Sites.clampMaxTo_eq] at h2; omega
-    · rw [Sites.clampMaxTo_eq]; exact hmax
-  · split
-    · rename_i h2
-      rw [Sites.clampMin_iff] at h2; rw [Sites.clampMinTo_eq]; omega
-    · omega
+theorem clamp_exceeds (o : Opt) (k n : Int) (hk : n + 1 ≤ k) (hmax : n < o.maxShard) : n < clamp o k :=
+  Coord.clamp_exceeds o k n hk hmax
+
+/-- **C03 (scale-up clause)**: all shards in sync; `h` is discovered, healthy, not too big, of
+    non-zero size, and after the cycle still no shard is planned to scrape it; the cycle did not
+    crash and more shards are allowed.  Then — for every schedule that visits every discovered
+    target — the last requested shard count exceeds the current one. -/
+theorem C03_scaleUp (swr : Swr) (sc : Sched) (inp : Input)
+    (hsync : ∀ p ∈ inp.probes, inSync p = true)
+    (hmp : 0 < inp.opt.maxProc) (hmh : 0 ≤ inp.opt.maxHead)
+    (hnn : ∀ k, 0 ≤ (globalOf (infos0 inp) inp.explore k).series ∧ 0 ≤ (globalOf (infos0 inp) inp.explore k).total)
+    (hfull : ∀ k ∈ inp.active, k ∈ sc.assign)
+    (h : Hash) (ha : h ∈ inp.active)
+    (hskip : Gen.assignSkip (globalOf (infos0 inp) inp.explore h) = false)
+    (hbig : Gen.tooBig inp.opt (globalOf (infos0 inp) inp.explore h) = false)
+    (hsz : 0 < (globalOf (infos0 inp) inp.explore h).series + (globalOf (infos0 inp) inp.explore h).total)
+    (hun : ∀ s ∈ (cycle swr sc inp).final, s.scraping.get h = none)
+    (hnc : (cycle swr sc inp).crashed = false)
+    (hmax : (inp.probes.length : Int) < inp.opt.maxShard) :
+    ∃ k, (cycle swr sc inp).scales.getLast? = some k ∧ (inp.probes.length : Int) < k := by
+  by_cases hne : stopsEarly inp = true
+  · -- the early request for min-shard failed: it is the only request, and it is above the count
+    rcases cycle_scales swr sc inp _ rfl with ⟨hs, _⟩ | ⟨k, _, _, hne', _⟩
+    · have he : earlyOf inp = true := by
+        unfold stopsEarly at hne; unfold earlyOf infos0
+        simp only [Bool.and_eq_true] at hne; exact hne.1
+      refine ⟨inp.opt.minShard, ?_, ?_⟩
+      · rw [hs]; unfold earlyScales; simp [he, Sites.earlyTo_eq]
+      · unfold earlyOf at he
+        rw [Sites.earlyMin_iff] at he
+        have : (infos0 inp).length = inp.probes.length := by unfold infos0; simp
+        omega
+    · rw [hne] at hne'; cases hne'
+  · have hne : stopsEarly inp = false := by simpa using hne
+    have heq := cycle_eq_finish swr sc inp hne
+    generalize hc2 : (alleviate swr inp.opt sc (startCS inp)) = r2 at heq
+    obtain ⟨c2, need1⟩ := r2
+    have hn1 := alleviate_need_nonneg swr inp.opt sc (startCS inp)
+    rw [hc2] at hn1
+    simp only at heq hn1
+    have hassign : assign inp.opt inp.active (globalOf (infos0 inp) inp.explore) sc c2 =
+        assignLoop inp.opt (scrapingSetOf c2.shards) (globalOf (infos0 inp) inp.explore)
+          (uniq (sc.assign.filter inp.active.contains)) c2 sc.picks {} := rfl
+    generalize hc3 : assign inp.opt inp.active (globalOf (infos0 inp) inp.explore) sc c2 = r3 at heq hassign
+    obtain ⟨c3, picks, need2⟩ := r3
+    simp only at heq
+    rw [heq] at hnc hun ⊢
+    obtain ⟨hc3c, hgrow⟩ := finish_grows sc inp _ c3 picks _ hnc
+    -- what the assignment loop says about h
+    have hloop := assignLoop_need (o := inp.opt) (scr := scrapingSetOf c2.shards) hnn
+      (uniq (sc.assign.filter inp.active.contains)) c2 sc.picks {} (uniq_nodup _) (keysIn_init c2 _)
+    rw [← hassign] at hloop
+    obtain ⟨hm1, hm2, hcase⟩ := hloop
+    have hmem : h ∈ uniq (sc.assign.filter inp.active.contains) := by
+      rw [mem_uniq, List.mem_filter]
+      exact ⟨hfull h ha, by simpa using ha⟩
+    -- h is not held by any shard of the final plan, hence by none of the earlier ones
+    have nokey3 : ¬ HasKey c3 h := by
+      intro hk
+      obtain ⟨j, s, hs, hg⟩ := hasKey_of_grows hgrow hk
+      exact hg (hun s (List.mem_of_getElem? hs))
+    have hscr : (scrapingSetOf c2.shards).contains h = false := by
+      cases hc : (scrapingSetOf c2.shards).contains h with
+      | false => rfl
+      | true =>
+        exfalso
+        unfold scrapingSetOf at hc
+        simp only [List.contains_eq_mem, List.mem_flatten, List.mem_map, decide_eq_true_eq] at hc
+        obtain ⟨ks, ⟨s, hs, rfl⟩, hk⟩ := hc
+        obtain ⟨j, hj⟩ := List.getElem?_of_mem hs
+        obtain ⟨v, hv⟩ := AL.mem_keys_get _ _ hk
+        have g23 : Grows c2.shards c3 := by
+          have := assign_pres (grows_presA inp.opt (globalOf (infos0 inp) inp.explore) c2.shards) inp.active sc c2
+            (by have := grows_refl c2.shards c2.log c2.crashed; cases c2; simpa using this)
+          rw [hc3] at this; exact this
+        exact nokey3 (hasKey_of_grows g23 ⟨j, s, hj, by rw [hv]; simp⟩)
+    rcases hcase hc3c h hmem hscr hskip hbig with hk | ⟨hh, hp⟩
+    · exact absurd hk nokey3
+    · -- the need is not zero: the scale-up branch is taken
+      simp only at hh hp hm1 hm2
+      have hgl := hnn h
+      have hup : Gen.needUp (Gen.spaceIsZero (spaceAdd need1 need2)) = true := by
+        rw [Sites.needUp_iff]
+        cases hz : Gen.spaceIsZero (spaceAdd need1 need2) with
+        | false => rfl
+        | true =>
+          rw [Sites.spaceIsZero_iff] at hz
+          simp only [spaceAdd, Gen.spaceAddHead, Gen.spaceAddProc] at hz
+          have e1 : (0 : Int) + (globalOf (infos0 inp) inp.explore h).series ≤ need2.head := hh
+          have e2 : (0 : Int) + (globalOf (infos0 inp) inp.explore h).total ≤ need2.proc := hp
+          omega
+      obtain ⟨hfin, hscales⟩ := finish_up sc inp _ c3 picks _ hnc hup
+      refine ⟨clamp inp.opt (tryScaleUp inp.opt c3.shards (spaceAdd need1 need2)), by rw [hscales]; simp, ?_⟩
+      have hlen : c3.shards.length = inp.probes.length := by
+        have := final_length' swr sc inp hne
+        rw [heq, hfin] at this; exact this
+      have hall : nChangeable c3.shards = c3.shards.length := by
+        have := final_all_changeable swr sc inp hne hsync
+        rw [heq, hfin] at this; exact this
+      have hneed : 0 ≤ (spaceAdd need1 need2).proc ∧ 0 ≤ (spaceAdd need1 need2).head := by
+        simp only [spaceAdd, Gen.spaceAddHead, Gen.spaceAddProc]
+        have e1 : (0 : Int) ≤ need2.head := hm1
+        have e2 : (0 : Int) ≤ need2.proc := hm2
+        constructor <;> omega
+      have := Coord.tryScaleUp_exceeds inp.opt c3.shards (spaceAdd need1 need2) hall hneed.1 hneed.2 hmp hmh
+      apply Coord.clamp_exceeds
+      · rw [← hlen]; exact this
+      · exact hmax
+
+/-- non-vacuity: one in-sync shard filled to 90/100 head series, a healthy unscraped target of 30
+    series: nothing fits, the cycle asks for 2 shards -/
+def exampleFull : Input :=
+  { opt := ⟨100, 1000, 4, 1, false, false⟩, active := [1, 2],
+    explore := [(2, { health := .good, series := 30, total := 30 })],
+    probes := [
+      { ready := true, status := some [(1, { health := .good, series := 90, total := 90, times := 7 })],
+        rt1 := some (⟨90, 90, .none⟩, true), pushOk := false, rt2 := none, postOk := true }] }
+
+example : (cycle (fun x r => x * r / 10) { assign := [1, 2] } exampleFull).scales = [2] ∧
+    (cycle (fun x r => x * r / 10) { assign := [1, 2] } exampleFull).crashed = false ∧
+    ((cycle (fun x r => x * r / 10) { assign := [1, 2] } exampleFull).final.all fun s => !s.scraping.has 2) = true := by
+  decide
 
 /-! ### the garbage-collection decisions that drive convergence
 
